@@ -154,5 +154,11 @@ mut('revert-F-C05-email', 'C05', DR + 'email_detection.py', "if len(working_stri
 mut('revert-F-C13', 'C13', PS, "                if rebuilt != original:", "                if False:")
 mut('revert-F-C15b', ['C15', 'C12'], CS, "                if self.pcfg.omen_exit:", "                if False:")
 mut('revert-F-C16b', ['C02'], RT, "if not any(omen_keyspace.values()):", "if not omen_keyspace.most_common(1):")
+# ---- benign refactorings that must leave every named check silent
+ALLG = ['C01', 'C02', 'C04', 'C08', 'C09', 'C13', 'C14', 'C15', 'C17']
+mut('benign-findprob-reversed', ALLG, G, "        for item in pt:\r\n            pt_type = item[0]", "        for item in reversed(pt):\r\n            pt_type = item[0]", benign=True, desc='product taken right to left: last-bit differences only')
+mut('benign-prob-times-reciprocal', ['C03', 'C06', 'C13', 'C19', 'C01'], CP, "prob_list[index] = (value[0],value[1]/total_count)", "prob_list[index] = (value[0],value[1] * (1/total_count))", benign=True, desc='count * (1/total): last-bit differences in every written probability')
+mut('benign-print-via-write', ['C09', 'C12', 'C16'], G, "                print(guess)", "                sys.stdout.write(guess + '\\n')", benign=True)
+mut('benign-queue-le', ALLG[:5], Q, "        return self.pt_item['prob'] >= other.pt_item['prob']", "        return not (self.pt_item['prob'] < other.pt_item['prob'])", benign=True)
 json.dump(M, open(os.path.join(os.path.dirname(os.path.abspath(__file__)), 'mutants.json'), 'w'), indent=1)
 print(len(M), 'mutants')
